@@ -1726,6 +1726,11 @@ class H2Connection:
             f = self._refuse_pushed_stream(frame.promised_stream_id)
             return [f], events
 
+        # Closed streams are only cleaned out of the stream table when streams
+        # are counted. Nothing else counts them while a server keeps promising
+        # streams and they keep getting reset, so do it here.
+        self._open_streams(int(not self.config.client_side))
+
         new_stream = self._begin_new_stream(
             frame.promised_stream_id, AllowedStreamIDs.EVEN
         )
